@@ -678,3 +678,56 @@ func init() {
 			}
 		}})
 }
+
+func init() {
+	register(&Rule{ID: "DB.purge", Min: 4, Text: "purging a document's rows (memory backend, used by compaction and by document purge): purgeDocumentInternals deletes from every per-document table exactly once — the table arguments of its DeleteAll calls are pairwise distinct — and reports each count under the name of the table it was deleted from; a table deleted twice is a table not deleted, and rows of the previous generation (stored snapshots) survive a compaction: once the new log grows past their serverSeq, rebuilds start from pre-compaction content",
+		Run: func(x *Ctx) {
+			fn := x.fn("server/backend/database/memory.(*DB).purgeDocumentInternals")
+			if fn == nil {
+				x.C.Unresolved(x.id(), "memory.DB.purgeDocumentInternals")
+				return
+			}
+			tbl := func(v ssa.Value) string {
+				if s, ok := constString(v); ok {
+					return s
+				}
+				if u, ok := prog.Strip(v).(*ssa.UnOp); ok {
+					if g, isG := u.X.(*ssa.Global); isG {
+						return g.Name()
+					}
+				}
+				return ""
+			}
+			seen := map[string]int{}
+			n := 0
+			for _, c := range prog.CallsIn(fn) {
+				o := prog.CallObj(c)
+				if o == nil || o.Name() != "DeleteAll" {
+					continue
+				}
+				n++
+				t := tbl(paramArg(c, 0))
+				seen[t]++
+				x.check(t != "" && seen[t] == 1, fmt.Sprintf("func=%s delete#%d table-not-deleted-before", prog.FnName(fn), n), x.pos(c), "table "+t+" is deleted once", "table "+t+" is deleted a second time (a copy/paste slip): the table that should have been deleted here keeps the document's rows")
+				// the count is reported under the same table
+				var cnt ssa.Value
+				for _, r := range *c.Value().Referrers() {
+					if ex, ok := r.(*ssa.Extract); ok && ex.Index == 0 {
+						cnt = ex
+					}
+				}
+				okKey := false
+				for _, b := range fn.Blocks {
+					for _, ins := range b.Instrs {
+						if mu, ok := ins.(*ssa.MapUpdate); ok && cnt != nil && prog.DependsOn(mu.Value, func(w ssa.Value) bool { return w == cnt }) {
+							okKey = tbl(mu.Key) == t
+						}
+					}
+				}
+				x.check(okKey, fmt.Sprintf("func=%s delete#%d count-reported-under-its-table", prog.FnName(fn), n), x.pos(c), "the count is stored under "+t, "the number of deleted rows is not reported under the table they were deleted from")
+			}
+			if n < 4 {
+				x.C.Vacuous(x.id()+" deletes", n, 4)
+			}
+		}})
+}
